@@ -32,6 +32,13 @@ CHECKS.update({
                      "enumerates every (type, datum) pair of the bounded universe with the set of documented results; the real loaders "
                      "must return one of them (typed equality) or reject exactly when the relation rejects, in all 6 modes. "
                      "Exhaustive over token classes x type depth 2, sampled inside a class (k representatives)."),
+    "C01": dict(technique="TLA+ spec Dump.tla (documented outer forms) + Load.tla; TLC checks RoundTripHolds/RoundTripJsonHolds on every (type, value) "
+                          "through MC_Dump.tla; every TLC-enumerated case dumped, loaded back and JSON-travelled on the real Retort in 6 modes",
+                category="model_checking", design_ref="6/C01", note=_LOAD_NOTE,
+                text="TLC proves on the bounded universe that the documented dump rules and the documented load rules are mutually inverse "
+                     "(also after json.dumps/json.loads) for every type without overlapping unions, and enumerates every (type, value) case; "
+                     "the real library must reproduce the documented outer form and load it back to a typed-equal value in all 6 modes. "
+                     "Model layouts (name_mapping) and model kinds ride on the C03/C17 machinery."),
     "C04": dict(technique=_LOAD_TECH + "; any exception that is not a LoadError tree is a violation", category="model_checking",
                 design_ref="6/C04", note=_LOAD_NOTE,
                 text="The model's outcome alphabet is {accepted, LoadError tree}; every enumerated case (incl. the hostile token classes "
